@@ -8,7 +8,7 @@ from .common import world, ok, vals, q3
 
 PID = 'C10'
 PI = math.pi
-PROPS = [(1, 0, 0), (2, 0, 0), (2, 1, 0), (4, 0, 0)]
+PROPS = [(1, 0, 0), (2, 0, 0), (2, 1, 0), (4, 0, 0), (3, 0, 2), (5, 0, 0)]      # tag stays at index 3
 KINDS = ['temperature models', 'composition models', 'grains models', 'velocity models']
 
 
@@ -42,7 +42,13 @@ def simple_models(rng, ftype, thick):
     if rng.random() < 0.4:
         tm['operation'] = rng.choice(['replace', 'add', 'subtract'])
     cm = {'model': 'uniform', 'compositions': [0, 1], 'fractions': [wg.num(rng, 0.1, 1.0), wg.num(rng, 0.1, 1.0)]}
-    return {'temperature models': [tm], 'composition models': [cm]}
+    gm = {'model': 'uniform', 'compositions': [0], 'grain sizes': [wg.num(rng, 0.05, 0.9)]}
+    if rng.random() < 0.5:
+        gm['rotation matrices'] = [wg.rnd(wg.rot_matrix(rng))]
+    else:
+        gm['Euler angles z-x-z'] = [[wg.R(rng.uniform(0, 360)), wg.R(rng.uniform(0, 180)), wg.R(rng.uniform(0, 360))]]
+    vm = {'model': 'uniform raw', 'velocity': [wg.num(rng, -0.1, 0.1), wg.num(rng, -0.1, 0.1), wg.num(rng, -0.1, 0.1)]}
+    return {'temperature models': [tm], 'composition models': [cm], 'grains models': [gm], 'velocity models': [vm]}
 
 
 def section_index(ctx, trench):
@@ -81,15 +87,26 @@ def family_equivalence(rng, fid):
         sec = {'coordinate': k, 'segments': copy.deepcopy(f['segments'])}
         r = rng.random()
         if r < 0.4:
-            sec['composition models'] = copy.deepcopy(models['composition models'])
+            for kind in rng.sample(KINDS, rng.randint(1, 3)):
+                sec[kind] = copy.deepcopy(models[kind])
         elif r < 0.7:
-            sec['temperature models'] = copy.deepcopy(models['temperature models'])
-            sec['segments'][rng.randrange(len(sec['segments']))]['composition models'] = copy.deepcopy(models['composition models'])
+            kind_a, kind_b = rng.sample(KINDS, 2)
+            sec[kind_a] = copy.deepcopy(models[kind_a])
+            sec['segments'][rng.randrange(len(sec['segments']))][kind_b] = copy.deepcopy(models[kind_b])
         secs.append(sec)
     v4['sections'] = secs
     seg = rng.choice(v4['segments'])
-    seg['temperature models'] = copy.deepcopy(models['temperature models'])
+    kind = rng.choice(KINDS)
+    seg[kind] = copy.deepcopy(models[kind])
     variants['mixed'] = v4
+    # 6. one kind of model only at section level (all coordinates), the others at feature level: each kind must be inherited by itself
+    v6 = copy.deepcopy(f)
+    lone = rng.choice(KINDS)
+    for kind in KINDS:
+        if kind != lone:
+            v6[kind] = copy.deepcopy(models[kind])
+    v6['sections'] = [{'coordinate': k, 'segments': copy.deepcopy(f['segments']), lone: copy.deepcopy(models[lone])} for k in range(n)]
+    variants['one-kind-at-section-level:' + lone.split(' ')[0]] = v6
     # 5. models only in sections for every coordinate (nothing at feature level), segments inherit from the section
     v5 = copy.deepcopy(f)
     v5['sections'] = [dict({'coordinate': k, 'segments': copy.deepcopy(f['segments'])}, **copy.deepcopy(models)) for k in range(n)]
@@ -127,12 +144,17 @@ def family_locality(rng, fid):
     # every coordinate gets its own section with a uniform temperature and composition (convexity), W1 additionally changes coordinate k
     Ts = [wg.num(rng, 400, 1600) for _ in range(n)]
     Cs = [wg.num(rng, 0.1, 1.0) for _ in range(n)]
+    Vs = [[wg.num(rng, -0.1, 0.1) for _ in range(3)] for _ in range(n)]
+    Gs = [wg.num(rng, 0.05, 0.9) for _ in range(n)]
+    Rm = wg.rnd(wg.rot_matrix(rng))
 
     def section(k, mod=None):
         segs = copy.deepcopy(f['segments'])
         sec = {'coordinate': k, 'segments': segs,
                'temperature models': [{'model': 'uniform', 'temperature': Ts[k]}],
-               'composition models': [{'model': 'uniform', 'compositions': [0], 'fractions': [Cs[k]]}]}
+               'composition models': [{'model': 'uniform', 'compositions': [0], 'fractions': [Cs[k]]}],
+               'velocity models': [{'model': 'uniform raw', 'velocity': list(Vs[k])}],
+               'grains models': [{'model': 'uniform', 'compositions': [0], 'grain sizes': [Gs[k]], 'rotation matrices': [Rm]}]}
         if mod == 'thickness':
             for s in segs:
                 s['thickness'] = [wg.R(x * 0.7) for x in s['thickness']]
@@ -146,9 +168,13 @@ def family_locality(rng, fid):
             sec['temperature models'] = [{'model': 'uniform', 'temperature': wg.R(Ts[k] + 333.0)}]
         elif mod == 'composition':
             sec['composition models'] = [{'model': 'uniform', 'compositions': [0], 'fractions': [wg.R(Cs[k] * 0.5)]}]
+        elif mod == 'velocity':
+            sec['velocity models'] = [{'model': 'uniform raw', 'velocity': [wg.R(v + 0.05) for v in Vs[k]]}]
+        elif mod == 'grains':
+            sec['grains models'] = [{'model': 'uniform', 'compositions': [0], 'grain sizes': [wg.R(Gs[k] * 0.5)], 'rotation matrices': [Rm]}]
         return sec
     k = rng.randrange(n)
-    mod = rng.choice(['thickness', 'length', 'truncation', 'temperature', 'composition'])
+    mod = rng.choice(['thickness', 'length', 'truncation', 'temperature', 'composition', 'velocity', 'grains'])
     w0 = copy.deepcopy(f)
     w0['sections'] = [section(j) for j in range(n)]
     w1 = copy.deepcopy(f)
@@ -194,7 +220,7 @@ def family_locality(rng, fid):
     for (j, (sx, sy, d)) in normal_pts:
         ib = c.add('bez_close', 1, 'c', core.hx(sx), core.hx(sy))
         plan.append(('normal', (sx, sy, d), ib, q3(c, 1, ctx, sx, sy, d, PROPS), q3(c, 2, ctx, sx, sy, d, PROPS), j))
-    return c, {'kind': 'locality', 'plan': plan, 'fid': fid, 'k': k, 'mod': mod, 'Ts': Ts, 'Cs': Cs, 'n': n, 'features': (w0, w1), 'collinear': collinear, 'ftype': ftype}
+    return c, {'kind': 'locality', 'plan': plan, 'fid': fid, 'k': k, 'mod': mod, 'Ts': Ts, 'Cs': Cs, 'Vs': Vs, 'Gs': Gs, 'n': n, 'features': (w0, w1), 'collinear': collinear, 'ftype': ftype}
 
 
 def check_equivalence(V, c, t):
@@ -231,7 +257,7 @@ def check_locality(V, c, t):
         if ok(c.results[0]) != ok(c.results[1]):
             V.violation('locality:construction-outcome-differs', {'family': t['fid'], 'r0': c.results[0], 'r1': c.results[1], 'mod': t['mod']})
         return
-    k, n, Ts, Cs = t['k'], t['n'], t['Ts'], t['Cs']
+    k, n, Ts, Cs, Vs, Gs = t['k'], t['n'], t['Ts'], t['Cs'], t['Vs'], t['Gs']
     for (kind, p, ib, i0, i1, j) in t['plan']:
         rb, r0, r1 = c.results[ib], c.results[i0], c.results[i1]
         if not ok(rb) or r0[0] == 'missing' or r1[0] == 'missing':
@@ -263,7 +289,17 @@ def check_locality(V, c, t):
                 # the solver accepts section fractions in [-1e-8, 1+1e-8]: extrapolation by that much is rounding, not a foreign value
                 if not (lo - 1e-7 <= v[1] <= hi + 1e-7):
                     V.violation('interpolation:composition-not-between-the-adjacent-sections', dict(detail, C=v[1], bounds=(lo, hi)))
+                # grain sizes (2 grains of composition 0: entries 4,5) and the velocity (entries 24..26) are interpolated like the rest
+                lo, hi = min(Gs[sec], Gs[sec + 1]), max(Gs[sec], Gs[sec + 1])
+                if not all(lo - 1e-7 <= g <= hi + 1e-7 for g in v[4:6]):
+                    V.violation('interpolation:grain-size-not-between-the-adjacent-sections', dict(detail, sizes=v[4:6], bounds=(lo, hi)))
+                for a in range(3):
+                    lo, hi = min(Vs[sec][a], Vs[sec + 1][a]), max(Vs[sec][a], Vs[sec + 1][a])
+                    if not (lo - 1e-7 <= v[24 + a] <= hi + 1e-7):
+                        V.violation('interpolation:velocity-not-between-the-adjacent-sections', dict(detail, component=a, velocity=v[24:27], bounds=(lo, hi)))
                 if kind == 'normal':
+                    if max(abs(v[24 + a] - Vs[j][a]) for a in range(3)) > 1e-7:
+                        V.violation('interpolation:section-velocity-not-attained-at-its-coordinate', dict(detail, velocity=v[24:27], expected=Vs[j], coordinate=j))
                     if abs(v[0] - Ts[j]) > 1e-6 + 1e-7 * Ts[j]:
                         V.violation('interpolation:section-value-not-attained-at-its-coordinate', dict(detail, T=v[0], expected=Ts[j], coordinate=j))
                     V.nontrivial((t['fid'], p, 'normal'))
@@ -274,9 +310,9 @@ def main(tier, seed, replay):
     core.build('asan')
     rng = random.Random(seed * 700001 + 10)
     V = core.Verdict(PID, tier, seed)
-    V.coverage['rule'] = ('(equivalence) families of five files that place the same models at feature level / in every segment / with a sections entry per coordinate / mixed / in sections only: bit-identical answers; '
-                          '(locality) a world with one section per coordinate and the same world with coordinate k overridden (thickness, length, top truncation, temperature, composition): bit-identical answers at points '
-                          'whose trench foot (library kernel bez_close) lies outside sections k-1 and k with 20 % margin; (convexity) uniform section temperatures/compositions: value between those of the two adjacent sections, '
+    V.coverage['rule'] = ('(equivalence) families of six files that place the same temperature, composition, grains and velocity models at feature level / in every segment / with a sections entry per coordinate / mixed / in sections only / one kind at section level only: bit-identical answers (temperature, compositions, tag, grains, velocity); '
+                          '(locality) a world with one section per coordinate and the same world with coordinate k overridden (thickness, length, top truncation, temperature, composition, velocity, grains): bit-identical answers at points '
+                          'whose trench foot (library kernel bez_close) lies outside sections k-1 and k with 20 % margin; (convexity) uniform section temperatures/compositions/grain sizes/velocities: value between those of the two adjacent sections, '
                           'and equal to the section value on the normal through an interior coordinate of a collinear trench; non-trivial = points inside the feature (equivalence), far points and normal points (locality)')
     n_eq, n_loc = (60, 80) if tier == 'quick' else (1800, 2400)
     jobs = []
